@@ -50,6 +50,8 @@ type V struct {
 	allowed      map[string][]string
 	cutUsed      map[string]bool
 	opaqueUsed   map[string]bool
+	impureUsed   map[string]bool
+	nEpochs      int
 }
 
 func (v *V) note(s string)        { v.notes[s] = true }
@@ -60,7 +62,7 @@ func newV(prog *Prog, fi *FuncInfo, spec *FuncSpec, mode Mode) *V {
 	v := &V{prog: prog, pkg: fi.pkg, fi: fi, spec: spec, d: newDecls(mode), oblInst: map[string]int{}, typeTags: map[string]int{},
 		strLits: map[string]string{}, closures: map[string]*closureInfo{}, loopOrd: map[ast.Stmt]int{}, callOrd: map[*ast.CallExpr]string{},
 		siteOrd: map[ast.Node]int{}, notes: map[string]bool{}, abstractions: map[string]bool{}, trusted: map[string]bool{},
-		opaqueUsed: map[string]bool{}, cutUsed: map[string]bool{}, atUsed: map[string]bool{}, usedContracts: map[string]*FuncSpec{}, inlined: map[string]bool{}}
+		impureUsed: map[string]bool{}, opaqueUsed: map[string]bool{}, cutUsed: map[string]bool{}, atUsed: map[string]bool{}, usedContracts: map[string]*FuncSpec{}, inlined: map[string]bool{}}
 	heapSortsReset(v.d)
 	return v
 }
@@ -433,7 +435,12 @@ func (v *V) checkPost(fr *Frame, o Outcome) {
 		}
 		e.proving = true
 		e.retVals = o.rets
-		// in postconditions, parameters denote their values at entry
+		// in postconditions, parameters (and the receiver) denote their values at entry
+		if rv := v.recvVar(v.fi); rv != nil {
+			if ev, ok := v.entry.vars[rv]; ok && !(v.entry.boxed != nil && v.entry.boxed[rv]) {
+				e.bound[rv.Name()] = ev
+			}
+		}
 		for i := 0; i < v.fi.sig.Params().Len(); i++ {
 			if pv := v.paramVar(v.fi, i); pv != nil {
 				if ev, ok := v.entry.vars[pv]; ok && !(v.entry.boxed != nil && v.entry.boxed[pv]) {
